@@ -81,6 +81,8 @@ def feature_tag(case):
         t.append("TPL0")
     if c.get("enc_mode", 8) <= 4:
         t.append("SB128")
+    if c.get("hierarchical_levels", 4) == 5:
+        t.append("HL5")
     if c.get("encoder_bit_depth", 8) == 10:
         t.append("10B")
     if c.get("source_width", 0) % 8 or c.get("source_height", 0) % 8:
